@@ -17,6 +17,28 @@ CLAIMS = {
   note="Trusted: Kani/CBMC model incl. realloc; allocation failure outside the model; capacities <= 4 (fixed) / initial capacity <= 3 (growable), k <= 3. Not covered: 4 KiB-size histories, bytes/tokio targets.",
   ref="DESIGN.md section 3, C12"),
 }
+CLAIMS.update({
+ "C08": dict(
+  text="Encoder half only. For every type of the Compiler schema (21 structs/enums reachable from SliceFile, plus Arguments) the solver decides, for all scalar values (every i32 tag incl. all varint widths, every u64 absolute value, every i32 discriminant, all flag combinations) and all string bytes inside a concrete small shape, that the bytes produced by the real hand-written EncodeInto impl in definition_types.rs equal - byte for byte and in length - the encoding that the Slice2 rules prescribe for the schema in slice/Compiler/*.slice. The reference encoder is GENERATED from the .slice files of /repo on every run, so a field order / missing marker / wrong discriminant / wrong integer encoding in the hand-written code, or a schema edit not followed by the code, is a counterexample. This shows the stream is decodable by an independent reader of the schema; it does NOT show that the stream says what the AST says.",
+  note="Trusted: tools/gen_k08.py (schema parser + Slice2 rules, ~200 lines) and Kani/CBMC. Shapes are concrete (strings of 0/1 byte, sequences of 0/1 element, nesting <= 2); Symbol::BasicEnum and Symbol::TypeAlias could not be decided inside Symbol (their payload types are covered on their own). Outside the claim: slice_file_converter.rs (AST -> schema structs: anonymous-type ids, paths, doc-comment lookup) and encode_generate_code_request / spawn_plugin_process in main.rs - AST-graph and process code CBMC cannot reach here.",
+  ref="DESIGN.md section 3 C08 and 6.3"),
+ "C04": dict(
+  text="Rule kernels only, each decided for all values of its symbolic inputs on hand-built AST elements of concrete shape: the numeric bounds table against the language rule for all 16 primitive kinds and its agreement with what the codec really encodes/decodes at every 64-bit boundary; the tag range for all i128 literals; enumerator range (0..2^31-1 without underlying type, all i128 values against each of the 12 integral kinds) through the public validate_enum; underlying type integral / non-optional, checked enums non-empty, compact enums neither backed nor unchecked (every flag combination, through validate_enum); no field list under an underlying type (even an empty one), compact enums/structs untagged, compact structs non-empty (validate_struct); tags only on optional members and tag uniqueness over 2-3 members in any order (validate_members); every stream placement over three parameters (validate_parameters); return tuples >= 2; dictionary key legality for every primitive kind and for enums (validate_dictionary). For each, the multiset of pushed diagnostic codes must equal what the rule says - both directions (violations diagnosed with the code that belongs to the rule, conforming input accepted with no diagnostic). Rules are entered through the validators' public per-element entry points wherever that was tractable, so moving logic between private helper functions does not raise an alarm and a rule that is no longer called is noticed.",
+  note="Trusted: Kani/CBMC; std::fmt::format stubbed to an empty string (message text is not asserted), RandomState::new stubbed where an Ast is built; the injected cfg(kani) constructors Ast::verif_empty and Diagnostics::verif_with_capacity (scratch copy only). Boolean inputs are enumerated as concrete cases behind symbolic selectors and numeric inputs are symbolic; where a number is symbolic the shape guarantees at most one diagnostic (a data-dependent position in the diagnostics vector is a > 10 GB problem). compact_enums_cannot_contain_tags is called directly (through validate_enum it exceeds 24 GB). Outside the claim: application of the rules to whole programs (visitor, redefinition scan, attribute rules, operations/inheritance rules, struct dictionary keys, type-alias rule, the parser), i.e. that every element of a program actually reaches its rule.",
+  ref="DESIGN.md section 3 C04 and 6.4"),
+ "C02": dict(
+  text="Three of the named mechanisms, as kernels: string-literal unescaping for every ASCII string of 2 (quick) / 3 (thorough) characters against a reference unescaper, and for a backslash followed by any 2-byte UTF-8 scalar; implicit enumerator numbering (written literal, else previous + 1 wrapping, else 0, the parser's carried value, and the restart from 0 after construct_enum completes an enum) for all i128 previous/explicit values through the real construct_enumerator / construct_enum; tag literals for all i128 values. Nothing about layouts, the lexers, the LALRPOP grammar, attribute mode, source order or scopes.",
+  note="Trusted: Kani/CBMC; RandomState::new and fmt::format stubs; Ast::verif_empty. Outside the claim: try_parse_integer (from_str_radix over a growing String), construct_enum's reset of the carried enumerator value, non-ASCII literals, everything that needs the lexer or the generated parser (2 symbolic characters through the Slice lexer are a 23 GB problem).",
+  ref="DESIGN.md section 3 C02"),
+ "C07": dict(
+  text="Phase gating and exit-status arithmetic only: for two recorded diagnostics of every kind combination (error kinds and lint kinds, any order) CompilationState::apply / apply_unsafe run the phase function exactly when no error-KIND diagnostic is recorded and has_errors() says the same; for three diagnostics of every kind x level combination get_totals counts exactly the Error-level and Warning-level ones (Allowed nowhere), Diagnostics::extend loses nothing, and the error total is zero exactly when no error diagnostic exists.",
+  note="Trusted: Kani/CBMC; RandomState::new stub; Ast::verif_empty. Outside the claim - and it is the deciding part of the property: main()'s `if !diagnostics.has_errors()` gate, the ignored --dry-run flag, compile_from_options' sequencing, generator start and file writing, into_updated's level rewrite.",
+  ref="DESIGN.md section 3 C07"),
+})
+CLAIMS["C20"] = dict(
+  text="A bounded CATALOGUE, not a quantification over programs: six harnesses run the real traversal code (every visit_with implementation: SliceFile, Module, Struct, Interface, Enum, Operation, CustomType, TypeAlias, Field, Parameter, Enumerator, and every arm of TypeRef::visit_with: unresolved, Sequence, Dictionary, Result, nested to depth 2) over small hand-built ASTs with a recording visitor; the solver decides, for every selector value (number of fields 0..2, return member present or not, enumerator with or without fields, module present or not, which anonymous type, optionality flags), that the recorded sequence of (callback kind, ADDRESS of the element) is exactly the prescribed one: container before contents, declaration order, parameters before return members, owner immediately followed by its type and then the nested types depth-first (key before value, success before failure), each element once, nothing else.",
+  note="Trusted: Kani/CBMC. The ASTs are built by the harness (OwnedPtr/WeakPtr as the parser would), not parsed; shapes are concrete. Outside the claim: programs larger than the catalogue, nesting depth 3, aliases of anonymous types across files, and that the parser builds the containers the traversal relies on.",
+  ref="DESIGN.md section 6.6")
 NA = {}
 def main():
     props = [json.loads(l)["id"] for l in open(os.path.join(V, "properties.jsonl"))]
